@@ -112,6 +112,13 @@ func NewRun(t *testing.T, prop string) *Run {
 	return r
 }
 
+// NewScratchRun returns a run context whose findings are discarded: used to execute scenario
+// runners of other properties under the race detector (C18), where only the detector's reports count.
+func NewScratchRun(t *testing.T, seed uint64, tier string) *Run {
+	return &Run{T: t, Prop: "scratch", Tier: tier, Seed: seed, Shards: 1, Only: -1,
+		Res: Result{Classes: map[string]int{}, Counters: map[string]int{}, Violations: []Violation{}, Inconclusive: []string{}, Samples: []any{}}}
+}
+
 func (r *Run) Thorough() bool { return r.Tier == "thorough" }
 
 // N picks the scenario count by tier.
